@@ -220,6 +220,15 @@ def fallback_bounded(pid):
     """Called when the deductive check is UNDECIDED (e.g. the change introduced an un-contracted helper):
     the bounded Kani twins only use the crate's PUBLIC API, so they still apply.  A counterexample is a
     violation (with CBMC's failed checks attached); a pass leaves the verdict undecided."""
+    if pid == 'C18':
+        k = run_kani_moves(dr.REPO, ['material_score_is_antisymmetric'], module='evaluate')
+        k['bound'] = 'kings on e1/e8 plus ONE further man of symbolic kind, colour and square (kani/evaluate.rs); symmetry and range of board_material_score; public API only'
+        viol = []
+        if k['result'] == 'FAILED':
+            viol.append(_viol(pid, 'kani-bounded', 'board_material_score (public API)', 'kani-assertion', 'material_score_is_antisymmetric',
+                              k['tail'], {'has_input': bool(k.get('playback')), 'checker_cmd': k['cmd'], 'failed_checks': k['failed_checks'],
+                                          'concrete_playback': k.get('playback'), 'bounded': k['bound']}))
+        return {'kani': k, 'violations': viol}
     if pid not in FALLBACK_PROPS:
         return None
     k = run_kani_moves(dr.REPO, MOVE_HARNESSES)
@@ -231,7 +240,7 @@ def fallback_bounded(pid):
     return {'kani': k, 'violations': viol}
 
 
-def run_kani_moves(repo, harnesses=None):
+def run_kani_moves(repo, harnesses=None, module='moves'):
     """BOUNDED stand-in, never counted as proved: StandardChessMove::apply + undo on ONE fixed board
     (kani/moves.rs: 13 men, both kings/rooks on home squares) with a fully SYMBOLIC (from, to) pair,
     compared with an executable transcription of the rules' successor.  Its value is a concrete
@@ -240,9 +249,9 @@ def run_kani_moves(repo, harnesses=None):
     try:
         dst = os.path.join(tmp, 'repo')
         subprocess.run(['rsync', '-a', '--exclude', 'target', '--exclude', '.git', repo + '/', dst + '/'], check=True)
-        shutil.copy(os.path.join(dr.VERIF, 'kani', 'moves.rs'), os.path.join(dst, 'src', 'verif_kani_moves.rs'))
+        shutil.copy(os.path.join(dr.VERIF, 'kani', module + '.rs'), os.path.join(dst, 'src', 'verif_kani_%s.rs' % module))
         with open(os.path.join(dst, 'src', 'lib.rs'), 'a') as f:
-            f.write('\n#[cfg(kani)] mod verif_kani_moves;\n')
+            f.write('\n#[cfg(kani)] mod verif_kani_%s;\n' % module)
         env = dict(os.environ, CARGO_NET_OFFLINE='true')
         harnesses = harnesses or ['std_apply_undo_board_a']
         cmd = ['cargo', 'kani']
